@@ -225,6 +225,9 @@ type Parent struct {
 	Start  time.Time
 	Extra  map[string]any // merged into coverage
 	Notes  []string
+	// WorkerBinary, when set by Prepare, is the executable the workers run (an instrumented build of the
+	// harness + tool made with go build -overlay); default: this executable.
+	WorkerBinary string
 }
 
 type Agg struct {
@@ -387,6 +390,9 @@ func runParent(env Env, ch *Check, only string) int {
 			fmt.Fprintf(os.Stderr, "INTERNAL: prepare failed: %v\n", err)
 			return 2
 		}
+	}
+	if p.WorkerBinary != "" {
+		self = p.WorkerBinary
 	}
 	n := ch.Workers
 	if n <= 0 {
@@ -774,4 +780,24 @@ func Hash(parts ...string) string {
 		h.Write([]byte{0})
 	}
 	return hex.EncodeToString(h.Sum(nil)[:8])
+}
+
+// BuildInstrumented builds the harness binary again with go build -overlay: files maps absolute paths of
+// repository sources to replacement files. Used by the choice-point explorers (map order, fs answers).
+func (p *Parent) BuildInstrumented(name string, files map[string]string) (string, error) {
+	ov := struct {
+		Replace map[string]string
+	}{files}
+	b, _ := json.Marshal(ov)
+	ovPath := filepath.Join(p.Shared, name+"-overlay.json")
+	if err := os.WriteFile(ovPath, b, 0o644); err != nil {
+		return "", err
+	}
+	out := filepath.Join(p.Shared, name)
+	cmd := exec.Command("go", "build", "-modfile="+p.Env.Modfile, "-overlay", ovPath, "-o", out, "./cmd/xv")
+	cmd.Dir = filepath.Join(p.Env.Verif, "xverif")
+	if o, err := cmd.CombinedOutput(); err != nil {
+		return "", fmt.Errorf("instrumented build failed: %v\n%s", err, o)
+	}
+	return out, nil
 }
